@@ -5,6 +5,7 @@ pid = sys.argv[1]
 wt = sys.argv[2]
 out = sys.argv[3]
 round2 = len(sys.argv) > 4 and sys.argv[4] == 'round2'
+round3 = len(sys.argv) > 4 and sys.argv[4] == 'round3'
 p = None
 for l in open('/verif/properties.jsonl'):
     d = json.loads(l)
@@ -31,7 +32,9 @@ YOUR TASK: produce TWO different, independent, realistic source changes to track
 
 The two changes should be in different places / of different nature (e.g. one about a comparison or boundary, one about a different sub-claim of the statement). Keep each change to a few lines.""" + ("""
 
-This is a SECOND round: an earlier round already produced the most obvious candidates (a flipped comparison or an off-by-one in the central loop of the main function, a dropped special case). Look elsewhere: helper functions and wrappers the main function relies on, argument / default handling, less-travelled branches and modes named in the statement, sub-claims of the statement that are easy to forget (frame conditions such as 'nothing else changes', symmetry, 'the same when called twice', behaviour at size 0/1/2, ties, NaN, borders), or a change split over two cooperating sites. Each change must still be something a developer could plausibly write.""" if round2 else "") + f"""
+This is a SECOND round: an earlier round already produced the most obvious candidates (a flipped comparison or an off-by-one in the central loop of the main function, a dropped special case). Look elsewhere: helper functions and wrappers the main function relies on, argument / default handling, less-travelled branches and modes named in the statement, sub-claims of the statement that are easy to forget (frame conditions such as 'nothing else changes', symmetry, 'the same when called twice', behaviour at size 0/1/2, ties, NaN, borders), or a change split over two cooperating sites. Each change must still be something a developer could plausibly write.""" if round2 else "") + ("""
+
+This is a THIRD round: two earlier rounds already produced the obvious candidates and a set of helper / frame-condition / call-twice candidates. This time aim for changes whose manifestation depends on SCALE or CONFIGURATION rather than on a single special value: they only show for inputs beyond toy sizes (for example tracks, networks, windows, grids, models or expressions with at least 5-8 elements, several levels of nesting or recursion, many repeated operations), for particular parameter values or modes of the public API (optional arguments, alternative entry points named under 'observable at', non-default settings), or for particular combinations of two inputs (relative sizes, relative order). Small inputs of size 1-4 with default parameters should behave exactly as before. Each change must still be something a developer could plausibly write (a cache, a fast path, a chunked loop, a limit, an early exit, a default).""" if round3 else "") + f"""
 
 DELIVERABLES (write them under {out}/, create the directory):
   {out}/A/patch.diff   (output of `git -C {wt} diff` for change A alone, relative to the unchanged HEAD)
